@@ -834,7 +834,7 @@ func (op *jalr) Run(ctx *Context, _ map[string]int32, pc int32, memory []int8, s
 		RegisterChange: true,
 		Register:       register,
 		RegisterValue:  value,
-		NextPc:         rs + op.imm,
+		NextPc:         (rs + op.imm) &^ 1,
 		PcChange:       true,
 	}, nil
 }
